@@ -84,6 +84,15 @@ func decimalVsFloat(d, f *Opaque) Bool {
 	return mkBoolT(&Term{S: fmt.Sprintf("(and (not (fp.isNaN %s)) (not (fp.isInfinite %s)) (fp.eq %s (fp.roundToIntegral RTZ %s)) (fp.lt (fp.abs %s) %s) (not (and (fp.isZero %s) (fp.isNegative %s))) (= ((_ fp.to_sbv 64) RTZ %s) %s))", x, x, x, x, x, lim, x, x, x, i)})
 }
 
+func unkID(a []Int) int {
+	for _, x := range a {
+		if x.X != nil && x.X.Kind == "unk" {
+			return x.X.ID
+		}
+	}
+	return 0
+}
+
 func opaqueEq(a, b *Opaque) Bool {
 	isF := func(k string) bool { return k == "g" || k == "v" }
 	if a.Kind == "d" && isF(b.Kind) {
@@ -237,6 +246,30 @@ func bytesEq(a, b []Int) Bool {
 	// an opaque piece (a formatted number or text) is never empty
 	if len(a) == 0 || len(b) == 0 {
 		return Bool{C: len(a) == len(b)}
+	}
+	// unknown text (e.g. what fmt prints for a format whose verbs depend on
+	// data): equal when the very same pieces, otherwise undetermined - an
+	// unconstrained boolean, so that an assertion depending on it becomes a
+	// candidate settled by the native replay
+	if ia, ib := unkID(a), unkID(b); ia != 0 || ib != 0 {
+		if len(a) == len(b) {
+			same := true
+			for i := range a {
+				switch {
+				case a[i].X != nil && b[i].X != nil:
+					same = same && a[i].X.Kind == "unk" && b[i].X.Kind == "unk" && a[i].X.ID == b[i].X.ID
+				case a[i].X == nil && b[i].X == nil:
+					r := eqInt(a[i], b[i])
+					same = same && r.T == nil && r.C
+				default:
+					same = false
+				}
+			}
+			if same {
+				return Bool{C: true}
+			}
+		}
+		return mkBoolT(&Term{S: fmt.Sprintf("(unk_eq %d %d)", ia, ib)})
 	}
 	// a whole string that is one formatted integer against plain bytes
 	if len(a) == 1 && a[0].X != nil && (a[0].X.Kind == "d" || a[0].X.Kind == "u") && !hasOpaque(b) {
